@@ -80,6 +80,7 @@ def run(ctx):
     check_resource_asserts(P, ctx)
     check_fields_released(P, ctx)
     check_files(P, ctx, tables)
+    check_local_ownership(P, ctx)
 
 
 FD_SOURCES = {"socket", "accept", "accept4", "eventfd", "timerfd_create", "epoll_create1", "epoll_create", "open", "openat", "dup", "signalfd", "inotify_init1"}
@@ -584,11 +585,179 @@ def _holder(f, call):
 
 
 def check_fields_released(P, ctx):
-    pass
+    """R3: every field that receives a descriptor is closed by a function reachable from every close and cleanup op;
+    R4: a descriptor handed out of a record through an out-parameter leaves the record (slot reset to -1)."""
+    r3 = ctx.rule("C08.R3", "every field that owns a descriptor is closed on the close and on the cleanup path")
+    fdret = fd_returning(P)
+    tk = takers(P)
+    owning = {}     # field -> where it receives a descriptor
+    for f in P.functions:
+        if not f.file.startswith("libxcm/"):
+            continue
+        srcvars = set()
+        for nid, n in f.nodes.items():
+            if n["k"] == "decl":
+                for v in n["vars"]:
+                    if v.get("init") is not None and _is_src(P, f, v["init"], fdret):
+                        srcvars.add(v["name"])
+            elif n["k"] == "bin" and n["op"] == "=" and f.sn(n["l"])["k"] == "ref" and _is_src(P, f, n["r"], fdret):
+                srcvars.add(f.sn(n["l"])["name"])
+        takes = {f.params[i]["name"] for i in tk.get(f, ())}
+        for nid, n in f.nodes.items():
+            if n["k"] == "bin" and n["op"] == "=" and f.sn(n["l"])["k"] == "member":
+                r = f.sn(n["r"])
+                fdname = (f.sn(n["l"])["field"] or "").endswith(("fd", "fd4", "fd6"))
+                if _is_src(P, f, n["r"], fdret) or (r["k"] == "ref" and (r.get("name") in srcvars or (fdname and r.get("dk") == "param" and r.get("name") in takes))):
+                    owning.setdefault((f.sn(n["l"]).get("record") or "?", f.sn(n["l"])["field"]), f.loc(nid))
+            elif n["k"] == "init" and n.get("fields"):
+                for fld, e in zip(n["fields"], n["elems"]):
+                    r = f.sn(e)
+                    if _is_src(P, f, e, fdret) or (r["k"] == "ref" and (r.get("name") in srcvars or (r.get("dk") == "param" and r.get("name") in takes and (fld or "").endswith(("fd", "fd4", "fd6"))))):
+                        owning.setdefault((n.get("record") or "?", fld), f.loc(nid))
+    # registration tables keep descriptor numbers without owning them
+    owning = {k: v for k, v in owning.items() if k[0] not in ("xpoll_fd_reg",)}
+    closers = {}
+    for f in P.functions:
+        for c in f.calls():
+            n = f.nodes[c]
+            if (n.get("callee") in CLOSERS or n.get("callee") == "active_fd_put") and n["args"]:
+                a = f.sn(n["args"][0])
+                if a["k"] == "member":
+                    closers.setdefault((a.get("record") or "?", a["field"]), []).append(f)
+                elif a["k"] == "un" and a["op"] == "*":
+                    # *fd = ... helpers (track_get_current_fd_ptr): treated through their callers below
+                    pass
+    tables = TP.ops_tables(P)
+    cb = CG.library_callbacks(P)
+    close_reach = {}
+    for slot in ("close", "cleanup"):
+        for t in tables:
+            f = t.slots.get(slot)
+            if f is not None and (slot, f) not in close_reach:
+                close_reach[(slot, f)] = set(CG.reach(P, [f], callbacks=cb)[0])
+    api_reach = {name: set(CG.reach(P, [P.fn(name)], callbacks=cb)[0]) for name in ("xcm_close", "xcm_cleanup")}
+    for (rec, fld), where in sorted(owning.items()):
+        r3.instance("%s.%s" % (rec, fld))
+        cl = closers.get((rec, fld), [])
+        if not cl:
+            # the tracker closes its two descriptors through the tconnect record that lent them
+            if rec == "track" and (("tconnect", fld) in closers):
+                r3.ok("%s.%s is a borrowed copy of tconnect.%s, which is closed by %s" % (rec, fld, fld, closers[("tconnect", fld)][0].name), "ownership stays with the lender")
+                continue
+            r3.violation("%s.%s:never-closed" % (rec, fld), "field %s.%s receives a descriptor (%s) but no function closes it" % (rec, fld, where), loc=where)
+            continue
+        missing = [name for name, rs in api_reach.items() if not any(c in rs for c in cl)]
+        if missing:
+            r3.violation("%s.%s:not-on-%s" % (rec, fld, "+".join(missing)), "the function closing %s.%s (%s) is not reachable from %s" % (rec, fld, cl[0].name, missing), loc=cl[0].file)
+        else:
+            r3.ok("%s.%s is closed by %s, reachable from xcm_close and xcm_cleanup" % (rec, fld, cl[0].name), "who-closes + reachability")
+    r3.floor(7, "descriptor-owning fields")
+
+    r4 = ctx.rule("C08.R4", "a descriptor handed out of a record leaves exactly one owner: the source slot is reset on the success path")
+    for f in P.functions:
+        if not f.file.startswith("libxcm/"):
+            continue
+        outp = [p["name"] for p in f.params if (p.get("t") or "").strip() == "int *" and "fd" in p["name"]]
+        if not outp:
+            continue
+        hands = [e for b, i, e, lhs, rhs, op in f.stores() if op == "=" and f.sn(lhs)["k"] == "un" and f.sn(f.sn(lhs)["sub"]).get("name") in outp]
+        passes = [c for c in f.calls() if any(f.sn(a).get("name") in outp for a in f.nodes[c]["args"]) and f.nodes[c].get("callee") not in ("__log_event",)]
+        if not hands and not passes:
+            continue
+        r4.instance(f.qname)
+        ok = [False]
+        seen_success = [0]
+
+        class Reset(C.Rule):
+            def initial(self, fn):
+                return False
+
+            def elem(self, fn, st, nid, blk, idx):
+                n = fn.nodes[nid]
+                if n["k"] == "bin" and n["op"] == "=" and C.const_of(fn, n["r"]) == -1 and _is_fd_slot(fn, n["l"]):
+                    return True
+                if n["k"] == "call":
+                    d = P.resolve_direct(fn, n["callee"]) if n.get("callee") else None
+                    if d is not None and any(C.const_of(d, r2) == -1 and _is_fd_slot(d, l2) for b2, i2, e2, l2, r2, o2 in d.stores() if r2 is not None and o2 == "="):
+                        return True
+                if n["k"] == "return" and n.get("sub") is not None and C.const_of(fn, n["sub"]) == 0:
+                    seen_success[0] += 1
+                    if not st:
+                        ok[0] = True
+                return None
+        C.explore(f, Reset())
+        if seen_success[0] == 0:
+            r4.note("%s: no constant success return" % f.qname)
+            continue
+        if ok[0]:
+            r4.violation("%s:slot-not-reset" % f.name, "%s hands a descriptor out through `%s` and returns success on a path where the record's own slot is not reset to -1: "
+                         "the record's destructor would close a descriptor the connection still uses" % (f.name, outp[0]), loc=f.file)
+        else:
+            r4.ok("%s resets the source slot before it reports success" % f.qname, "path exploration")
+    r4.floor(2, "hand-over functions")
+
+
+def _is_fd_slot(fn, lhs):
+    """lvalue is a descriptor slot: a field named *fd/fd4/fd6, or *p with p an int pointer (a pointer to such a slot)"""
+    n = fn.sn(lhs)
+    if n["k"] == "member":
+        return (n["field"] or "").endswith(("fd", "fd4", "fd6"))
+    if n["k"] == "un" and n["op"] == "*":
+        return (fn.sn(n["sub"]).get("t") or "").strip() == "int *"
+    return False
 
 
 def check_files(P, ctx, tables):
-    pass
+    r8 = ctx.rule("C08.R8", "socket files vanish with their socket: the path is recorded only after a successful bind and unlinked by the owner's close")
+    ux = [t for t in tables if t.proto == "uxf"]
+    if not ux:
+        raise Broken("C08.R8: uxf table not found")
+    srv = ux[0].slots["server"]
+    r8.instance(srv.qname)
+    bad = []
+    nrec = [0]
+
+    class PathAfterBind(S.SeqRule):
+        def user0(s2, fn):
+            return None
+
+        def on_call(s2, fn, st, nid, callees, exts):
+            n = fn.nodes[nid]
+            if "bind" in exts:
+                return nid
+            if n.get("callee") in ("strcpy", "strncpy", "memcpy", "snprintf") and n["args"] and fn.fields_of(n["args"][0])[-1:] == ("path",):
+                nrec[0] += 1
+                b = st.user
+                okb = False
+                if b is not None:
+                    c = st.get(("call", b))
+                    if c in (S.ZERO, S.NONNEG, S.POS):
+                        okb = True
+                if not okb:
+                    bad.append(nid)
+            return None
+    S.run(PathAfterBind(P), srv)
+    if nrec[0] == 0:
+        raise Broken("C08.R8: ux_server does not record the path")
+    if bad:
+        r8.violation("%s:path-before-bind" % srv.name, "the socket file's path is recorded on a path where bind() has not succeeded: a failed server attempt would unlink "
+                     "a file that belongs to another socket", loc=srv.loc(bad[0]))
+    else:
+        r8.ok("the path to unlink is recorded only on the success edge of bind()", "path exploration")
+    dn = [f for f in P.fns_in("ux/xcm_tp_ux.c") if any(True for _ in f.calls("unlink"))]
+    r8.instance("unlink in the ux transport")
+    okd = False
+    for f in dn:
+        for c in f.calls("unlink"):
+            wb = f.where()[c][0]
+            if f.fields_of(f.nodes[c]["args"][0])[-1:] == ("path",) and any("owner" in f.show(cond) and wb in C.only_via_edge(f, b, "T") for b, cond in C.cond_blocks(f)):
+                cr = set(CG.reach(P, [ux[0].slots["close"]])[0])
+                if f in cr:
+                    okd = True
+    if okd:
+        r8.ok("the recorded path is unlinked under `owner` by a function the close op reaches", "control dependence + reachability")
+    else:
+        r8.violation("ux:unlink", "no unlink of the recorded path under the owner guard reachable from ux_close", loc="libxcm/tp/ux/xcm_tp_ux.c")
 
 
 def check_ops_before_open(P, ctx):
@@ -622,3 +791,180 @@ def check_ops_before_open(P, ctx):
     parent, _ = CG.reach(P, [sa], guard=None, callbacks=callbacks)
     if not any(d.name == "xcm_tp_socket_finish" for d in parent):
         raise Broken("C08.R10 self-check: xcm_tp_socket_finish is not reachable from set_attrs with the guard off")
+
+
+# creators: name -> releasers (any of them, object as first argument unless an index is given)
+OWN_PAIRS = {
+    "xpoll_create": {"xpoll_destroy"}, "xcm_dns_resolve": {"xcm_dns_query_destroy"}, "attr_tree_create": {"attr_tree_destroy"},
+    "attr_path_parse": {"attr_path_destroy"}, "slist_split": {"slist_destroy"}, "slist_create": {"slist_destroy"}, "slist_clone": {"slist_destroy"},
+    "cert_get_subject_names": {"slist_destroy"}, "cert_get_subject_names_by_type": {"slist_destroy"},
+    "ut_asprintf": {"ut_free", "free"}, "ut_vasprintf": {"ut_free", "free"}, "ut_strdup": {"ut_free", "free"}, "ut_strndup": {"ut_free", "free"},
+    "ut_malloc": {"ut_free", "free"}, "ut_calloc": {"ut_free", "free"}, "ut_memdup": {"ut_free", "free"}, "ut_realloc": {"ut_free", "free"},
+    "slist_join": {"ut_free", "free"}, "strdup": {"free", "ut_free"}, "malloc": {"free", "ut_free"},
+    "SSL_get_peer_certificate": {"X509_free"}, "SSL_get1_peer_certificate": {"X509_free"}, "PEM_read_bio_X509": {"X509_free"},
+    "PEM_read_bio_X509_AUX": {"X509_free"}, "PEM_read_bio_PrivateKey": {"EVP_PKEY_free"}, "PEM_read_bio_X509_CRL": {"X509_CRL_free"},
+    "BIO_new_mem_buf": {"BIO_free", "BIO_free_all"}, "BIO_new": {"BIO_free", "BIO_free_all"}, "EVP_MD_CTX_new": {"EVP_MD_CTX_free", "EVP_MD_CTX_destroy"},
+    "EVP_MD_CTX_create": {"EVP_MD_CTX_free", "EVP_MD_CTX_destroy"}, "X509_get_ext_d2i": {"sk_GENERAL_NAME_pop_free", "GENERAL_NAMES_free", "OPENSSL_sk_pop_free"},
+    "SSL_CTX_new": {"SSL_CTX_free"}, "SSL_new": {"SSL_free"}, "xcm_attr_map_create": {"xcm_attr_map_destroy"}, "xcm_attr_map_clone": {"xcm_attr_map_destroy"},
+    "fopen": {"fclose"}, "opendir": {"closedir"}, "tconnect_create": {"tconnect_destroy"}, "timer_mgr_create": {"timer_mgr_destroy"},
+    "ctl_create": {"ctl_destroy"}, "X509_STORE_new": {"X509_STORE_free"}, "PEM_X509_INFO_read_bio": {"sk_X509_INFO_pop_free", "OPENSSL_sk_pop_free"},
+}
+# external functions that take over the object given at these argument positions (OpenSSL set0/add0 conventions)
+OWN_SINKS_EXT = {"SSL_set_bio": (1, 2), "SSL_CTX_add0_chain_cert": (1,), "SSL_CTX_set0_chain": (1,), "SSL_CTX_set_cert_store": (1,),
+                 "SSL_CTX_ctrl": (3,), "OPENSSL_sk_push": (1,), "sk_X509_push": (1,), "X509_STORE_add_crl": (), "BIO_push": (0, 1)}
+
+
+def check_local_ownership(P, ctx):
+    """R9: an object obtained from a creator is, on every path to every exit, released, stored in memory that outlives
+    the function, returned, or handed to a function that keeps it."""
+    from .. import escape as ESC
+    r9 = ctx.rule("C08.R9", "every object a function obtains from a creator is released, stored, returned or handed over on every path")
+    E = ESC.Escape(P)
+    allrel = set()
+    for v in OWN_PAIRS.values():
+        allrel |= v
+    ninst = 0
+    for f in P.functions:
+        if not f.file.startswith(("libxcm/", "common/")) or f.name in OWN_PAIRS:
+            continue
+        creators = [c for c in f.calls() if (f.nodes[c].get("callee") or "") in OWN_PAIRS]
+        if not creators:
+            continue
+        bad = []
+
+        class Own(C.Rule):
+            def initial(self, fn):
+                return frozenset()
+
+            def _var(self, fn, nid):
+                n = fn.sn(nid)
+                if n["k"] == "ref" and n["dk"] == "local":
+                    return n["name"]
+                return None
+
+            def elem(self, fn, st, nid, blk, idx):
+                n = fn.nodes[nid]
+                k = n["k"]
+                if k == "decl":
+                    for v in n["vars"]:
+                        if v.get("init") is not None:
+                            cr = self._creator_of(fn, v["init"])
+                            if cr and "*" in (v.get("t") or ""):
+                                st = st | {(v["name"], cr)}
+                            else:
+                                st = self._moves(fn, st, v["init"], to_local=True)
+                    return st
+                if k == "bin" and n["op"] == "=":
+                    lv = self._var(fn, n["l"])
+                    cr = self._creator_of(fn, n["r"])
+                    if cr:
+                        if lv is not None:
+                            old = [x for x in st if x[0] == lv]
+                            if old and cr != "ut_realloc":
+                                bad.append((lv, old[0][1], "overwritten by a new %s() result while still owned" % cr, nid))
+                            return frozenset(x for x in st if x[0] != lv) | {(lv, cr)}
+                        return st        # stored straight into a field / out-parameter: owned by that record
+                    # x = NULL after release, or hand-over into memory
+                    if lv is None:
+                        return self._moves(fn, st, n["r"], to_local=False)
+                    return st
+                if k == "call":
+                    name = n.get("callee") or ""
+                    defs, exts = P.callees(fn, nid)
+                    for ai, a in enumerate(n["args"]):
+                        v = self._var(fn, a)
+                        if v is None and (name in allrel or name.endswith("_free")):
+                            # OpenSSL's typed-stack macros wrap the argument in a checker call
+                            for x in fn.walk(a):
+                                m = fn.nodes[x]
+                                if m["k"] == "ref" and m.get("dk") == "local" and any(y[0] == m["name"] for y in st):
+                                    v = m["name"]
+                        if v is None:
+                            continue
+                        owned = [x for x in st if x[0] == v]
+                        if not owned:
+                            continue
+                        cr = owned[0][1]
+                        if name in OWN_PAIRS.get(cr, ()) or name in allrel or (name.endswith("_free") and ai == 0):
+                            st = st - {owned[0]}
+                        elif ai in OWN_SINKS_EXT.get(name, ()):
+                            st = st - {owned[0]}
+                        elif any(ai < len(d.params) and E.escapes(d, ai) for d in defs):
+                            st = st - {owned[0]}
+                        elif name == "ut_realloc":
+                            st = st - {owned[0]}
+                    return st
+                if k == "return":
+                    rv = self._var(fn, n["sub"]) if n.get("sub") is not None else None
+                    for v, cr in st:
+                        if v == rv:
+                            continue
+                        if n.get("sub") is not None and any(fn.nodes[x]["k"] == "ref" and fn.nodes[x].get("name") == v for x in fn.walk(n["sub"])):
+                            continue
+                        bad.append((v, cr, "still owned at this return", nid))
+                    return frozenset()
+                return None
+
+            def _creator_of(self, fn, nid, depth=0):
+                """creator whose result the expression is (both arms of a conditional count)"""
+                c = fn.sn(nid)
+                if c["k"] == "call" and (c.get("callee") or "") in OWN_PAIRS:
+                    return c["callee"]
+                if c["k"] == "cond" and depth < 2:
+                    return self._creator_of(fn, c["tv"], depth + 1) or self._creator_of(fn, c["fv"], depth + 1)
+                return None
+
+            def _moves(self, fn, st, rhs, to_local):
+                """ownership moves with a plain copy of the variable into memory (fields, *out) or into another local"""
+                v = self._var(fn, rhs)
+                if v is None:
+                    # struct initialiser / compound literal mentioning owned variables
+                    for x in fn.walk(rhs):
+                        m = fn.nodes[x]
+                        if m["k"] == "init":
+                            for e in m["elems"]:
+                                vv = self._var(fn, e)
+                                st = frozenset(y for y in st if y[0] != vv)
+                    return st
+                if to_local:
+                    return st
+                return frozenset(y for y in st if y[0] != v)
+
+            def branch(self, fn, st, blk, cond, label):
+                if label not in ("T", "F"):
+                    return None
+                l, op, r = C.cond_atom(fn, cond, label == "T")
+                c = r[1] if isinstance(r, tuple) else C.const_of(fn, r)
+                if c != 0:
+                    return None
+                ln = fn.sn(l)
+                if ln["k"] == "bin" and ln["op"] == "=":
+                    ln = fn.sn(ln["l"])
+                v = ln["name"] if ln["k"] == "ref" and ln.get("dk") == "local" else None
+                if v is not None and op == "==":
+                    return frozenset(y for y in st if y[0] != v)     # NULL: nothing was obtained
+                return None
+
+            def at_exit(self, fn, st, blk):
+                # falling off the end of a void function
+                for v, cr in st:
+                    bad.append((v, cr, "still owned when the function ends", None))
+        try:
+            C.explore(f, Own(), max_states=60000)
+        except RuntimeError:
+            r9.note("%s: exploration budget exceeded" % f.qname)
+            continue
+        # implicit returns of void functions: check at blocks leading to exit without return
+        ninst += len(creators)
+        r9.instance("%s (%d creator call(s))" % (f.qname, len(creators)))
+        seen = set()
+        for v, cr, why, nid in bad:
+            if (v, cr) in seen:
+                continue
+            seen.add((v, cr))
+            r9.violation("%s:%s<-%s" % (f.name, v, cr), "%s: the object in `%s` (from %s) is %s: it is neither released (%s), stored, returned nor handed over on this path"
+                         % (f.name, v, cr, why, "/".join(sorted(OWN_PAIRS[cr]))), loc=f.loc(nid) if nid is not None else f.file)
+        if not bad:
+            r9.ok("%s: every locally obtained object has an owner at every exit" % f.qname, "ownership typestate on all paths")
+    if ninst < 60:
+        raise Broken("C08.R9: only %d creator call sites" % ninst)
